@@ -17,7 +17,8 @@ sys.path.insert(0, os.path.dirname(os.path.abspath(__file__)))
 import common as C  # noqa: E402
 
 FAMILY = {
-    "C01": "cast", "C02": "cast", "C03": "cast", "C07": "cast", "C11": "cast", "C14": "cast",
+    "C01": "cast", "C02": "cast", "C03": "cast", "C07": "cast", "C11": "cast+alloc", "C14": "cast",
+    "C09": "alloc", "C10": "alloc", "C12": "alloc", "C13": "alloc", "C15": "alloc", "C16": "alloc",
 }
 
 
@@ -126,31 +127,49 @@ def check(prop, tier, seed):
     with C.Lock():
         model_status = C.regen_model()
         proof = C.prove(prop)
-        if fam == "cast":
+        mons, corrs, herr, notes = [], [], [], []
+        evals, distinct, samples, dist, rules = 0, 0, [], {}, []
+        if "cast" in fam:
             import fam_cast
             res = fam_cast.transcripts(tier)
-            mons, corrs, st = fam_cast.findings(res, prop)
-            stats = {
-                "evaluations": st["evaluations"],
-                "distinct_nontrivial": len(st["distinct"]),
-                "rule": "castgrid: every ordered pair of grid types x lengths x every valid address residue mod 16 x "
-                        "feature sets %s; one evaluation = one call of one public function on the real crate, "
-                        "compared with the extracted translated model and checked by the verified monitor; distinct = "
-                        "distinct (function, sizes, alignments, length, residue, bytes, outcome) tuples" % (
-                            sorted(res["cfgs"].keys())),
-                "samples": st["samples"],
-                "distribution": {"by_function": dict(st["by_fn"]), "by_outcome": dict(st["by_outcome"]),
-                                 "transcripts_cached": res.get("cached", False)},
-            }
-            herr = list(st["harness_errors"])
+            m, c, st = fam_cast.findings(res, prop)
+            mons += m; corrs += c; herr += list(st["harness_errors"]); notes += st.get("notes", [])
             if res.get("oracle_error"):
                 herr.append("oracle: " + res["oracle_error"])
-            assumptions = [
-                "memory is flat bytes: pointer provenance, aliasing and uninitialised-memory UB are not modelled",
-                "the grid instantiates sizes 0..=32 and alignments 1..=16; the theorems are unbounded",
-            ]
-            return verdict(prop, tier, seed, t0, proof, model_status, mons, corrs, stats,
-                           extra_assumptions=assumptions, harness_errors=herr)
+            evals += st["evaluations"]; distinct += len(st["distinct"]); samples += st["samples"]
+            dist["castgrid_by_function"] = dict(st["by_fn"]); dist["castgrid_by_outcome"] = dict(st["by_outcome"])
+            dist["castgrid_transcripts_cached"] = res.get("cached", False)
+            rules.append("castgrid: every ordered pair of grid types x lengths x every valid address residue mod 16 x "
+                         "feature sets %s (plus real bool/char/NonZero targets, exhaustive 8/16-bit patterns, must_ compile verdicts); "
+                         "one evaluation = one call of one public function on the real crate, compared with the extracted "
+                         "translated model and checked by the verified monitor; distinct = distinct (function, sizes, "
+                         "alignments, length, residue, bytes, outcome) tuples" % sorted(str(k) for k in res["cfgs"].keys()))
+        if "alloc" in fam:
+            import fam_alloc
+            res = fam_alloc.transcripts(tier, seed)
+            m, c, st = fam_alloc.findings(res, prop)
+            mons += m; corrs += c; herr += list(st["harness_errors"]); notes += st.get("notes", [])
+            evals += st["evaluations"]; distinct += len(st["distinct"]); samples += st["samples"]
+            dist["allocgrid_by_function"] = dict(st["by_fn"]); dist["allocgrid_by_outcome"] = dict(st["by_outcome"])
+            dist["allocgrid_transcripts_cached"] = res.get("cached", False)
+            rules.append("allocgrid: every ordered pair of grid types (plus a second same-layout family) x lengths x spare "
+                         "capacities x container kinds under a recording global allocator (exact layouts of every alloc/dealloc, "
+                         "live-block table, injected allocation failure, panicking destructors, seeded Rc/Arc handle histories); "
+                         "one evaluation = one call sequence on the real crate, its observation vector compared with the "
+                         "extracted model and checked by the monitor; distinct = distinct (case, observation) pairs")
+        stats = {"evaluations": evals, "distinct_nontrivial": distinct, "rule": " || ".join(rules), "samples": samples,
+                 "distribution": dist}
+        if notes:
+            stats["distribution"]["notes"] = notes[:6]
+        assumptions = [
+            "memory is flat bytes: pointer provenance, aliasing and uninitialised-memory UB are not modelled",
+            "the grid instantiates sizes 0..=32 and alignments 1..=16; the theorems are unbounded",
+        ]
+        if "alloc" in fam:
+            assumptions.append("std's allocation layouts (Box, Vec, Rc/Arc header of two words) and reference counting are "
+                               "modelled, validated by the ledger correspondence, not verified; Arc atomics assumed linearisable")
+        return verdict(prop, tier, seed, t0, proof, model_status, mons, corrs, stats,
+                       extra_assumptions=assumptions, harness_errors=herr)
     return 2
 
 
